@@ -103,7 +103,7 @@ PROPS['C01'] = {
     'trusted_base': COMMON_TRUST + [HASH_TRUST, INTVEC_TRUST, FBS_TRUST, PANIC_ASSERTS,
                                     'verus/prelude/rng.rs: rand::Rng as an arbitrary-value source (gen_range in [a,b), gen::<bool> arbitrary)',
                                     'HashIterBuilder::setup_f: `(0..k).map(|i| {BODY}).collect()` rewritten to the push loop it denotes (BODY verbatim) and verified; HashIter no-overflow precondition m <= 2^32'],
-    'assumptions': ['BuildHasher is stable (same words -> same hash) and `==` on BuildHashers is structural', 'std::collections::HashSet behaves as vstd specifies (obeys_key_model::<T>(), builds_valid_hashers::<S>() assumed); T::clone returns an equal value; `extend(other.iter().cloned())` = union (contract-only stub)', 'induction over histories is by the re-established invariant inv() (each public operation requires and ensures it); the induction itself is not a mechanised statement'],
+    'assumptions': ['BuildHasher is stable (same words -> same hash) and `==` on BuildHashers is structural', 'std::collections::HashSet behaves as vstd specifies (obeys_key_model::<T>(), builds_valid_hashers::<S>() assumed); T::clone returns an equal value; `extend(other.iter().cloned())` = union (contract-only stub)', 'histories: each client step proves aset(after) == replay(h + [op]) from aset(before) == replay(h) for the abstract history semantics replay(); lemma_replay_only_inserted / lemma_replay_keeps / lemma_replay_len prove the history statements on replay(); that a run of the real code is the iteration of such steps is the remaining (meta) step'],
     'not_decided': ['BloomFilter with m > 2^32 bits (u64 overflow of h1 + i*h2 + f is excluded by precondition)'],
 }
 
@@ -190,7 +190,7 @@ PROPS['C13'] = {
     'kani': {'quick': QF_QUICK + QF_QR + QF_UNION_QUICK[-1:], 'thorough': QF_THOROUGH + QF_UNION_THOROUGH[:1]},
     'explanation': 'Verus proof, unbounded in table size, remainder width and history (unit quotient_exact, 100+ obligations): the canonical layout is captured by a ghost per-slot displacement d (slot_ok: shifted <=> d > 0, continuation <=> same home as predecessor, remainders strictly increasing inside a run; occupied <=> some element has that home). Key lemma: along a cluster the number of run starts equals the number of occupied buckets up to the home (lemma_runs), which makes scan()\'s counting walk find exactly the run of the quotient; the layout d is unique (lemma_canon_unique), so the abstract set mem(v, q, r) is well defined. Proved on the real text: scan: present == mem, plus the local insertion-point facts; insert_internal: Ok(false) iff known (state unchanged), Err iff new and len == 2^bq (state unchanged), Ok(true) iff new below capacity: len + 1, the new state is canonical and mem\' == mem + {(q, r)} for EVERY class (nothing lost, nothing invented), "infinite loop detected" unreachable; query == mem of the element\'s class; len == number of used slots == cardinality of the finite set of stored classes aset() (lemma_class_inj, lemma_cset); clear / constructor => empty set with the full invariant; union Ok => exact set union, Err <=> the union has more classes than slots. calc_quotient_remainder returns exactly the low bq+br hash bits split at br (bit-vector proof). Client step functions (step_insert_query, step_fresh, step_clear_query, step_union_query) state the property over these contracts for one step of an arbitrary history. Kani one-step harnesses against an independent canonical-layout encoder stay as counterexample engine (bounded: 2 slots quick, 4 slots thorough).',
     'trusted_base': COMMON_TRUST + [HASH_TRUST, INTVEC_TRUST, FBS_TRUST, 'vstd VecDeque push_back/pop_front specs', 'the 40-line canonical-layout encoder in kani/harness/filters__quotientfilter.rs (independent oracle of the bounded cross-check only)'],
-    'assumptions': ['induction over histories is by the re-established invariant inv(): every public operation requires and ensures it; the induction itself is not a mechanised statement'],
+    'assumptions': ['histories: each client step proves aset(after) == replay(h + [op]) from aset(before) == replay(h) for the abstract history semantics replay(); lemma_replay_only_inserted / lemma_replay_keeps / lemma_replay_len prove the history statements on replay(); that a run of the real code is the iteration of such steps is the remaining (meta) step'],
     'not_decided': [],
 }
 
